@@ -1123,14 +1123,34 @@ def O_rules(ctx, rule="O"):
                   "fn_ids_not_processed is the node-order filter `!fn_ids_processed.contains(id)` over all nodes of the walked structure", why)
     # O3: state mapping
     mp = None
+    mp_arg = 1
     for f in fb.fns.values():
         if len(f["inputs"]) == 1 and f["inputs"][0]["s"] == "usize" and "StreamOutcomeState" in f["output"]["s"] and not f.get("impl_self"):
             mp = fb.bodies.get(f["id"])
     if mp is None:
+        # an associated function / a constructor taking the countdown among other things
+        # (`StreamOutcomeState::after_stream(n)`, `StreamOutcome::after_stream(structure, value, n, processed)`)
+        for f in sorted(fb.fns.values(), key=lambda x: x["id"]):
+            us = [i for i, x in enumerate(f["inputs"]) if x["s"] == "usize"]
+            bx_ = fb.bodies.get(f["id"])
+            if f.get("public") or len(us) != 1 or bx_ is None or bx_.kind != "fn" or fb.is_test_body(bx_):
+                continue
+            if not ("StreamOutcomeState" in f["output"]["s"] or "stream_outcome::StreamOutcome<" in f["output"]["s"]):
+                continue
+            vs_ = {s_["rv"].get("variant") for _, _, s_ in bx_.stmts() if s_["k"] == "assign" and s_["rv"]["k"] == "agg" and
+                   s_["rv"].get("def") == "stream_outcome::StreamOutcomeState"}
+            if {"Finished", "Interrupted"} <= vs_:
+                mp = bx_
+                mp_arg = us[0] + 1
+    if mp is None:
         ctx.unverifiable(rule + "3", "state-map", "-", "state mapping function (usize -> StreamOutcomeState) not found")
     else:
         arms = {}
-        for kind, dbb, si, x in get_defs(mp).of(0):
+        state_defs = [(kind, dbb, si, x) for kind, dbb, si, x in get_defs(mp).of(0)]
+        if not any(kind == "stmt" and x["rv"]["k"] == "agg" and x["rv"].get("def") == "stream_outcome::StreamOutcomeState" for kind, dbb, si, x in state_defs):
+            state_defs = [("stmt", bb_, si_, s_) for bb_, si_, s_ in mp.stmts() if s_["k"] == "assign" and s_["rv"]["k"] == "agg" and
+                          s_["rv"].get("def") == "stream_outcome::StreamOutcomeState"]
+        for kind, dbb, si, x in state_defs:
             if kind == "stmt" and x["rv"]["k"] == "agg":
                 for sb, vals in guards_of(mp, dbb):
                     de = strip_refs(switch_expr(mp, sb))
@@ -1151,7 +1171,7 @@ def O_rules(ctx, rule="O"):
                 continue
             n3 += 1
             ctx.cover(rule + "3", b.id)
-            srcs = fl.sources_operand(b, t["args"][0], (), "taint")
+            srcs = fl.sources_operand(b, t["args"][mp_arg - 1], (), "taint") if mp_arg - 1 < len(t["args"]) else frozenset()
             has_nc = any(s.kind == "alloc" and s[4] in NODE_COUNT_FNS for s in srcs)
             ctx.check(has_nc, rule + "3", "remaining-arg|%s" % short(b.id), m.where(b, bb),
                       "the state is derived from the countdown initialised from node_count()",
@@ -1175,6 +1195,11 @@ def O5(ctx, rule="O5"):
     for bid in sorted(bodies):
         b = fb.bodies[bid]
         if bid.startswith("stream_outcome::") or bid.startswith("<stream_outcome::"):
+            # the outcome type's own methods: only a crate-private constructor that goes through `new` counts as a source
+            for bb, t in b.calls():
+                if (callee_path(t) or "") == "stream_outcome::StreamOutcome::<T>::new" and not (fb.fns.get(b.id) or {}).get("public"):
+                    n_new += 1
+                    ctx.cover(rule, b.id)
             continue
         for bb, t in b.calls():
             p = callee_path(t) or ""
